@@ -1,0 +1,12 @@
+// Copyright 2026 The Go Authors. All rights reserved.
+// Use of this source code is governed by a BSD-style
+// license that can be found in the LICENSE file.
+
+//go:build !verif
+
+package ssh
+
+// verifAdjustKexInit is a no-op in normal builds. With the "verif" build tag
+// (see verif_hooks.go) a simulation harness may edit the KEXINIT message
+// before it is sent, e.g. to act as a peer that does not offer strict KEX.
+func verifAdjustKexInit(isServer, firstKex bool, msg *kexInitMsg) {}
